@@ -145,6 +145,13 @@ async fn run_cfg<TC: Tcfg>(case: &Case, st: &mut Stats) -> R {
     }
     let exp_next = m_next.publish(&target).map_err(|_| Fail { sig: "harness".into(), msg: "target batch invalid".into() })?;
     ensure!(exp_next.0 == m.epoch + 1, "harness", "target publish is not state-changing");
+    let followup: Vec<Pair> = vec![(b"c10-followup-label".to_vec(), b"f".to_vec()), (target[0].0.clone(), b"c10-followup-value".to_vec())];
+    let mut m_follow = Model::new(TC::CFG, &key);
+    for b in batches.iter() {
+        let _ = m_follow.publish(b);
+    }
+    let _ = m_follow.publish(&target);
+    let exp_follow = m_follow.publish(&followup).map_err(|_| Fail { sig: "harness".into(), msg: "follow-up batch invalid".into() })?;
     // fault-free run: K
     let inst = instance::<TC>(case.mgr, case.par, &key, &s_a, &s_b, last_prefix).await?;
     let pre = snapshot(&inst.vdb.inner).await;
@@ -204,6 +211,11 @@ async fn run_cfg<TC: Tcfg>(case: &Case, st: &mut Stats) -> R {
             let eh = inst.dir.publish(to_batch(&target)).await.map_err(|e| Fail { sig: "retry-failed".into(), msg: format!("{what}: retry of the same publish failed: {e:?}") })?;
             ensure!((eh.0, eh.1) == exp_next, "retry-result", "{what}: retry returned ({}, {}), expected ({}, {})", eh.0, hex::encode(eh.1), exp_next.0, hex::encode(exp_next.1));
             serves_state::<TC, _>(&inst.dir, &m_next, &pk, &labels, k as usize, &format!("{what}; after the successful retry")).await?;
+            // ... and a further, different publish ends where it would have ended had the failed call never been made
+            if k % 3 == 0 {
+                let eh = inst.dir.publish(to_batch(&followup)).await.map_err(|e| Fail { sig: "followup-failed".into(), msg: format!("{what}: a further publish after the retry failed: {e:?}") })?;
+                ensure!((eh.0, eh.1) == exp_follow, "followup-result", "{what}: a further publish after failure+retry returned ({}, {}), the model expects ({}, {})", eh.0, hex::encode(&eh.1[..6]), exp_follow.0, hex::encode(&exp_follow.1[..6]));
+            }
         }
     }
     Ok(())
